@@ -44,6 +44,9 @@ func genC19(coop bool) func(t *rapid.T) c19Case {
 		if c.Stack.Kind == "pool" {
 			c.Stack.Strategy = rapid.SampledFrom([]string{"simple", "precise"}).Draw(t, "strategy")
 			c.Stack.Inject = coop
+			// the generic pool takes any limiter: its strategy object may have been built with another size than
+			// the (fixed) limit; the pool's size is the limit
+			c.Stack.StratInit = rapid.SampledFrom([]int{0, 0, c.Stack.Limit + 4, 1, 64}).Draw(t, "stratInit")
 		}
 		n := rapid.IntRange(c.Stack.Limit+1, c.Stack.Limit+c.Stack.Backlog).Draw(t, "n")
 		cancels := []int{-1}
